@@ -201,6 +201,79 @@ def run_shard(prop, tier, seed, shard, nshards, budget_s, max_cases, only=None):
     return res
 
 
+def run_piggyback(prop, tier, seed, only=None):
+    """Second workload: the repository's own test suite, run from a scratch copy of /repo/tests (the suite
+    writes and deletes files relative to its cwd) against the working-tree sources, with the passive
+    monitors of ``prop`` installed.  Violations are recorded, never raised, so test outcomes are unchanged."""
+    import shutil
+    import tempfile
+
+    t0 = time.time()
+    src = boot.setup()
+    mod = importlib.import_module(f"rv.props.{prop}")
+    mon = Monitor(prop)
+    reach = Reach()
+    mod.install(mon, reach)
+    if hasattr(mod, "piggyback_setup"):
+        mod.piggyback_setup(mon)
+    import pytest
+
+    from .pytest_plugin import Plugin
+
+    repo_root = os.path.dirname(src)
+    scratch = tempfile.mkdtemp(prefix=f"rv-piggy-{prop}-")
+    plugin = Plugin(mon)
+    try:
+        shutil.copytree(os.path.join(repo_root, "tests"), os.path.join(scratch, "tests"),
+                        ignore=shutil.ignore_patterns("__pycache__", "*.pyc"))
+        cwd = os.getcwd()
+        os.chdir(scratch)
+        try:
+            args = ["-q", "-x" if False else "-q", "-p", "no:cacheprovider", "--timeout=900", "--rootdir", scratch,
+                    "-W", "ignore", "--no-header", "-o", "console_output_style=classic"]
+            args += [only] if only else ["tests"]
+            import contextlib
+            import io as _io
+
+            buf = _io.StringIO()
+            with contextlib.redirect_stdout(buf):
+                rc = pytest.main(args, plugins=[plugin])
+        finally:
+            os.chdir(cwd)
+    finally:
+        shutil.rmtree(scratch, ignore_errors=True)
+    mon.active = False
+    res = {
+        "prop": prop, "tier": tier, "seed": seed, "shard": "piggyback", "nshards": 0,
+        "hashseed": os.environ.get("PYTHONHASHSEED", ""), "src": src, "evaluations": 0, "classes": {},
+        "nontrivial_hashes": [], "samples": [], "inconclusive_cases": [], "case_errors": [], "exhausted": [],
+        "time_capped": False, "n_case_errors": 0,
+        "piggyback": {"tests_run": plugin.tests, "outcomes": plugin.outcomes, "pytest_exit": int(rc),
+                      "monitor_evaluations": int(sum(mon.hits.values())),
+                      "monitor_verdicts": int(sum(mon.judged.values())),
+                      "out_of_domain": int(sum(mon.ood.values()))},
+    }
+    if hasattr(mod, "finish"):
+        try:
+            mod.finish(mon, res)
+        except Exception:
+            pass
+    res["hits"] = dict(mon.hits)
+    res["judged"] = dict(mon.judged)
+    res["ood"] = dict(mon.ood)
+    res["checks"] = dict(mon.checks)
+    res["notes"] = {}
+    res["violations"] = mon.violations
+    res["n_violations"] = mon.n_violations
+    res["known"] = dict(mon.known)
+    res["known_samples"] = mon.known_samples
+    res["monitor_errors"] = mon.monitor_errors
+    res["n_monitor_errors"] = mon.n_monitor_errors
+    res["reach"] = reach.report()
+    res["wall_s"] = round(time.time() - t0, 3)
+    return res
+
+
 def main(argv=None):
     import argparse
 
@@ -214,7 +287,16 @@ def main(argv=None):
     ap.add_argument("--max-cases", type=int, default=10**9)
     ap.add_argument("--only", default=None, help="cls:index")
     ap.add_argument("--out", required=True)
+    ap.add_argument("--piggyback", action="store_true")
     a = ap.parse_args(argv)
+    if a.piggyback:
+        try:
+            res = run_piggyback(a.prop, a.tier, a.seed, a.only)
+        except Exception:
+            res = {"fatal": traceback.format_exc()[-3000:], "prop": a.prop, "shard": "piggyback"}
+        with open(a.out, "w") as f:
+            json.dump(res, f, default=str)
+        return 0
     only = None
     if a.only:
         cls, idx = a.only.rsplit(":", 1)
